@@ -3,10 +3,11 @@
 SPECIFICATION MCSpec
 CONSTANTS
  UnitFix = FALSE
+ TypeByName = TRUE
  Alphabet = {97, 110, 48, 95, 58, 34, 92, 10, 32, 233}
  MaxLen = 4
  PairAlphabet = {97, 110, 48, 34, 92, 10, 32}
  PairLen = 2
- Scopes = {"names", "names_dist", "keys", "keys_global", "values", "values_dist", "descs", "matrix", "pair_name_desc", "pair_key_value", "pair_values"}
+ Scopes = {"names", "names_dist", "keys", "keys_global", "values", "values_dist", "descs", "matrix", "overrides", "override_pats", "pair_name_desc", "pair_key_value", "pair_values"}
 INVARIANTS NameGrammar LabelGrammar ValueEscaped DescEscaped NoSyntaxError Complete NameRuleOrCF08 NoForgery
 CHECK_DEADLOCK FALSE
